@@ -88,7 +88,7 @@ def closed (b : Branch) : Bool :=
 
 def consts (b : Branch) : List (Nat × Nat) :=
   b.nodes.flatMap fun | .sent s _ _ => s.consts | _ => []
-def worlds (b : Branch) : List Nat := b.nodes.flatMap Node.worlds
+def worlds (b : Branch) : List Nat := b.nodes.flatMap Node.worldsSem
 def hasAccess (b : Branch) (w1 w2 : Nat) : Bool := b.nodes.contains (.access w1 w2)
 def hasNode (b : Branch) (n : Node) : Bool := b.nodes.contains n
 end Branch
